@@ -47,8 +47,8 @@ BINDING = re.compile(r'<'
                      r'(?P<type>\w+)*'
                      r'>')
 
-_FLOAT_PATTERN = r'[+-]?\ *(\d+(\.\d*)?|\.\d+)([eE][+-]?\d+)?'
-_INT_PATTERN = r'[+-]?\ *[0-9]+'
+_FLOAT_PATTERN = r'\ *[+-]?(\d+(\.\d*)?|\.\d+)([eE][+-]?\d+)?'
+_INT_PATTERN = r'\ *[+-]?[0-9]+'
 _STR_PATTERN = r'[^/]+'
 
 _SEG_TMPL = '(?P<{name}>({sep}{pattern}){arity})'
